@@ -231,6 +231,7 @@ def evaluate(sc, res):
     res["tags"].append(f"model-ops={len(mops)}/{len(ops)}")
     resolve_cache = {}
     taint = None                # label of the first operation the model excludes from the agreeing region
+    stale = None                # label of the operation after which the model says the hook mask stays on with no rebase in progress
     wh_done = False             # W-vs-H comparison stops at the first difference (everything later is a consequence)
     side_reported = False
     wb_done = False
@@ -271,10 +272,11 @@ def evaluate(sc, res):
             if side_model != sorted(obs["H"]["side"]):
                 res["ties"].append(("side-state", {"op": lab, "model": side_model, "observed": sorted(obs["H"]["side"])}))
             if not p["stepOk"] and taint is None:
-                taint = lab
-            # the abort itself is inside the region (nothing reaches a handler) but leaves the mask on
-            if taint is None and p["side"]["mask"] and not obs["H"]["in_progress"]:
-                taint = lab
+                # `stale`: an earlier `rebase --abort` left the hook entry points renamed away (witness_abort_leaves_mask);
+                # an operation other than commit / checkout / rewrite that follows is not seen by hooks mode
+                only_side = p["wf"] and p["agree"] and p["journalOk"] and not p["sideOk"]
+                taint = (stale + "+masked-op") if (stale and only_side) else lab
+            stale = (stale or lab) if (p["side"]["mask"] and not obs["H"]["in_progress"]) else None
             res["tags"].append(f"stepOk={p['stepOk']}")
         # ---------------- oracles: H against W
         if not wh_done:
@@ -289,8 +291,13 @@ def evaluate(sc, res):
             bd = diff_maps(obs["W"]["blame"], obs["H"]["blame"])
             if bd:
                 diffs.append(("blame-differs", {"path": bd[0], "W": obs["W"]["blame"].get(bd[0]), "H": obs["H"]["blame"].get(bd[0])}))
-            if obs["H"]["side"] and not obs["H"]["in_progress"]:
-                diffs.append(("side-state-left", {"files": obs["H"]["side"]}))
+            left = obs["H"]["side"] if not obs["H"]["in_progress"] else []
+            if p is not None and left == ["rebase_hook_mask_state.json"] and p["side"]["mask"]:
+                # what the model says of `rebase --abort` (no hook left to run): the next commit / checkout restores the
+                # entry points; what an operation in between loses is compared on that operation
+                left = []
+            if left:
+                diffs.append(("side-state-left", {"files": left}))
             if taint:
                 # inside the excluded region the model itself predicts different handler inputs (checked above, per
                 # twin, by the journal correspondence): only what the property speaks about — notes, blame — and
